@@ -258,21 +258,109 @@ Proof.
   unfold string_of_bytes. rewrite string_of_list_of, L. reflexivity.
 Qed.
 
-(* ... but the text is not escaped: a signature containing a double quote breaks the line *)
-Definition sig_w1 : string := "a""b c()void".
-Lemma method_unescaped_breaks msel :
-  exists line, method_line sig_w1 = Some line /\
-               tokens_of_line line = ["method"; """a""b"; "c()void"""] /\
-               parse_stmt msel (tokens_of_line line) = None.
-Proof. eexists. split; [reflexivity|]. split; reflexivity. Qed.
+(* what the constructor accepts (after /repo ae4cf37) *)
+Lemma method_line_accepts s line : method_line s = Some line ->
+  line = ("method " ++ method_arg s)%string /\ s <> ""%string /\
+  forallb sigc (list_ascii_of_string s) = true /\ no_nl (list_ascii_of_string s) = true.
+Proof.
+  unfold method_line. destruct s as [|c s]; [discriminate|].
+  destruct (existsb sig_bad (list_ascii_of_string (String c s))) eqn:E; [discriminate|].
+  intros [= <-]. split; [reflexivity|]. split; [discriminate|].
+  assert (G1 : forall x, sig_bad x = false -> sigc x = true /\ negb (Ascii.eqb x (chr 10)) = true).
+  { intros x Hx. unfold sig_bad in Hx. repeat (apply orb_false_iff in Hx as [Hx ?]).
+    unfold sigc. change (chr 10) with "010"%char. unfold dquote, backslash in *.
+    repeat match goal with X : Ascii.eqb x _ = false |- _ => rewrite X; clear X end. split; reflexivity. }
+  assert (G : forall l, existsb sig_bad l = false -> forallb sigc l = true /\ no_nl l = true).
+  { induction l as [|x l IH]; [split; reflexivity|]. cbn [existsb]. intros H.
+    apply orb_false_iff in H as [Hx Hl]. destruct (IH Hl) as [I1 I2]. destruct (G1 x Hx) as [J1 J2].
+    unfold no_nl in *. cbn [forallb]. now rewrite I1, I2, J1, J2. }
+  now apply G.
+Qed.
 
-(* ... or smuggles further instructions into the program *)
+Lemma method_line_rejects s :
+  method_line s = None <-> (s = ""%string \/ existsb sig_bad (list_ascii_of_string s) = true).
+Proof.
+  unfold method_line. destruct s as [|c s]; [split; [now left | reflexivity]|].
+  destruct (existsb sig_bad (list_ascii_of_string (String c s))); split; intros H; try reflexivity;
+    try discriminate H; [now right | destruct H as [H|H]; discriminate H].
+Qed.
+
+Lemma method_tokens s : forallb sigc (list_ascii_of_string s) = true ->
+  tokens_of_line ("method " ++ method_arg s) = ["method"; method_arg s].
+Proof.
+  intros H. unfold tokens_of_line. rewrite list_of_append, method_arg_list.
+  assert (P : forall rest acc, tok_line (list_ascii_of_string "method " ++ rest) [] false false false acc =
+                               tok_line rest [] false false false ("method" :: acc)) by reflexivity.
+  rewrite P. cbn [tok_line]. change (is_space dquote) with false. change (Ascii.eqb dquote """") with true. cbn iota.
+  rewrite tok_instr_plain by exact H. cbn [tok_line].
+  change (Ascii.eqb dquote "\") with false. change (Ascii.eqb dquote """") with true. cbn iota.
+  cbn [rev app]. f_equal. f_equal. unfold str_of. cbn [rev]. rewrite rev_app_distr, rev_involutive. cbn [rev app].
+  rewrite <- method_arg_list. apply string_of_list_of.
+Qed.
+
+Lemma method_literal_parses s : forallb sigc (list_ascii_of_string s) = true ->
+  parse_string_literal (method_arg s) = Some (list_ascii_of_string s).
+Proof.
+  intros H. unfold parse_string_literal. rewrite method_arg_list.
+  change (Ascii.eqb dquote """") with true. cbn iota. now apply parse_body_plain.
+Qed.
+
+(* FULL statement: every accepted signature text is emitted as a line that the assembler reads as
+   exactly one `method` instruction for exactly that text *)
+Lemma method_literal_correct msel s line :
+  method_line s = Some line ->
+  tokens_of_line line = ["method"; method_arg s] /\
+  parse_string_literal (method_arg s) = Some (list_ascii_of_string s) /\
+  forall sel, alookup String.eqb s msel = Some sel ->
+              parse_stmt msel (tokens_of_line line) = push_method sel.
+Proof.
+  intros H. destruct (method_line_accepts s line H) as (-> & _ & Hc & _).
+  split; [now apply method_tokens|]. split; [now apply method_literal_parses|].
+  intros sel L. now apply method_plain_ok.
+Qed.
+
+(* a two-token statement line without line feed inside a program text *)
+Lemma program_with_line msel (pre post line a b : string) st :
+  no_nl (list_ascii_of_string line) = true ->
+  tokens_of_line line = [a; b] -> String.eqb a ";" = false -> String.eqb b ";" = false ->
+  parse_stmt msel [a; b] = Some (Some st) ->
+  statements_of_text msel (pre ++ nl ++ line ++ nl ++ post)%string =
+  match statements_of_text msel pre, statements_of_text msel post with
+  | Some x, Some y => Some (x ++ st :: y)
+  | _, _ => None
+  end.
+Proof.
+  intros NL T Ha Hb P. unfold statements_of_text.
+  rewrite !list_of_append. cbn [nl list_ascii_of_string app].
+  rewrite split_lines_app_line by exact NL.
+  rewrite str_of_rev, string_of_list_of.
+  rewrite flat_map_app. cbn [flat_map]. rewrite T.
+  rewrite split_semis_two by assumption.
+  rewrite parse_stmts_app. cbn [app parse_stmts]. rewrite P.
+  destruct (parse_stmts msel (flat_map _ (split_lines (list_ascii_of_string pre) []))); [|reflexivity].
+  destruct (parse_stmts msel (flat_map _ (split_lines (list_ascii_of_string post) []))); reflexivity.
+Qed.
+
+Lemma method_in_program msel (pre post s line : string) sel :
+  method_line s = Some line -> alookup String.eqb s msel = Some sel ->
+  statements_of_text msel (pre ++ nl ++ line ++ nl ++ post)%string =
+  match statements_of_text msel pre, statements_of_text msel post with
+  | Some x, Some y => Some (x ++ SInstr (mkP O_method_signature [IBytes sel]) :: y)
+  | _, _ => None
+  end.
+Proof.
+  intros H L. destruct (method_literal_correct msel s line H) as (T & _ & R).
+  destruct (method_line_accepts s line H) as (E & _ & _ & NL).
+  eapply program_with_line; [| exact T | reflexivity | reflexivity | rewrite <- T; now apply R].
+  subst line. rewrite list_of_append, method_arg_list. unfold no_nl in *.
+  rewrite forallb_app. cbn [forallb]. rewrite forallb_app, NL. reflexivity.
+Qed.
+
+(* the texts that used to break the line are now rejected at construction *)
+Definition sig_w1 : string := "a""b c()void".
 Definition sig_w2 : string := "a"" ; int 1 ; byte ""b".
-Lemma method_unescaped_injects sel :
-  exists line, method_line sig_w2 = Some line /\
-    map (parse_stmt [("a", sel)]) (split_semis (tokens_of_line line) []) =
-      [push_method sel; push_int 1; push_bytes ["b"%char]].
-Proof. eexists. split; [reflexivity|]. reflexivity. Qed.
+Lemma method_former_witnesses_rejected : method_line sig_w1 = None /\ method_line sig_w2 = None.
+Proof. split; reflexivity. Qed.
 
 Lemma method_rejects_empty : method_line "" = None.
 Proof. reflexivity. Qed.
@@ -343,3 +431,7 @@ Example method_example :
              (tokens_of_line ("method " ++ method_arg "add(uint64,uint64)uint64")) =
   push_method [zero; one; zero; one].
 Proof. apply method_plain_ok; reflexivity. Qed.
+
+Example method_separators_example :   (* VT, FF, FS..US stay inside the literal: only LF ends a TEAL line *)
+  exists line, method_line (String "a" (String "011" (String "012" (String "028" (String "030" "b"))))) = Some line.
+Proof. eexists. reflexivity. Qed.
